@@ -248,7 +248,12 @@ void Executor::check_verdict_real(Obj& o, int st, bool complete, const std::vect
   const char* p1 = "C01"; const char* p2 = "C02";
   auto both = [&](const char* prop, const char* oracle, const std::string& d) {
     viol(prop, oracle, d, ctx);
-    for (auto& a : also) { const char* pre = a == "C16" ? "resume_" : a == "C06" ? "warmstart_" : "scaled_"; viol(a.c_str(), (std::string(pre) + oracle).c_str(), d, ctx); } };
+    for (auto& a : also) {
+      const char* pre = a == "C16" ? "resume_" : a == "C06" ? "warmstart_" : "scaled_";
+      // C09 speaks about the space the returned vectors live in, not about completeness or verdicts
+      static const char* c09ok[] = {"slack_not_activity", "primal_infeasible", "dual_infeasible", "redcost_not_stationary", "complementarity", "objective_not_cx_plus_offset", "ray_invalid", "farkas_invalid", "farkas_sign"};
+      if (a == "C09") { bool okk = false; for (auto w : c09ok) if (std::string(w) == oracle) okk = true; if (!okk) { count("c09_not_a_vector_oracle"); continue; } }
+      viol(a.c_str(), (std::string(pre) + oracle).c_str(), d, ctx); } };
   if (st == sut::ST_OPTIMAL) {
     count("verdict_checked_optimal");
     if (ref.status != model::REF_OPTIMAL) { if (robust) both(p2, "optimal_without_optimum", std::string("OPTIMAL returned, exact reference says ") + model::ref_name(ref.status)); else count("fragile_skipped"); return; }
@@ -296,7 +301,7 @@ void Executor::check_verdict_real(Obj& o, int st, bool complete, const std::vect
   }
   // completeness: a finite optimum must be found once faults have stopped
   if (complete && ref.status == model::REF_OPTIMAL && st != sut::ST_OPTIMAL && st != sut::ST_OPTIMAL_UNSCALED_VIOLATIONS && !is_abort(st)) {
-    both(p1, "finite_optimum_not_solved", std::string("LP has optimum ") + dstr(ref.z.get_d()) + " but optimize returned " + sut::status_name(st));
+    both(p1, (std::string("finite_optimum_not_solved:") + sut::status_name(st)).c_str(), std::string("LP has optimum ") + dstr(ref.z.get_d()) + " but optimize returned " + sut::status_name(st));
   }
   if (st == sut::ST_OPTIMAL_UNSCALED_VIOLATIONS) count("optimal_unscaled_violations");
 }
